@@ -12,7 +12,7 @@ import typing as t
 from .load import Func, unparse
 
 VERIF_DIR = os.path.dirname(os.path.dirname(os.path.abspath(__file__)))
-EVIDENCE_DIR = os.path.join(VERIF_DIR, "evidence")
+EVIDENCE_DIR = os.environ.get("VERIF_EVIDENCE_DIR", os.path.join(VERIF_DIR, "evidence"))  # scratch-tree runs (--repo) write elsewhere
 REPLAY_DIR = os.environ.get("VERIF_REPLAY_DIR", os.path.join(VERIF_DIR, "replay"))
 KNOWN_FILE = os.path.join(VERIF_DIR, "known_findings.json")
 
